@@ -156,4 +156,4 @@ PI = Contract("C04", INIT, "process_iter", env=ENV,
                        "live processes' handles keep answering is_running() == True"],
               replay="c04:history", note="bounded: exhaustive enumeration of small process-table histories")
 BOUNDED_CONTRACTS = [PI]
-BOUNDED = [bounded_sweep(PI, "c04:history", quick=1500, thorough=40000)]
+BOUNDED = [bounded_sweep(PI, "c04:history", quick=2500, thorough=60000)]
